@@ -129,6 +129,11 @@ func mergeSchemas(sources []*ast.Schema) (*ast.Schema, error) {
 				continue
 			}
 
+			// the services have to agree on what kind of type the name stands for
+			if previousDefinition.Kind != definition.Kind {
+				return nil, fmt.Errorf("type %s is defined as %s and as %s in different services", name, previousDefinition.Kind, definition.Kind)
+			}
+
 			// unify handling of errors for merging
 			var err error
 
